@@ -398,6 +398,13 @@ def check(run: Run) -> None:
                         nts.append(strip_sites(fc_.term_of(actual)))
                 nts = nts or [nt]
             some_filled = any(_is_filled(x_) for t0_ in nts for x_ in _leaves(t0_))
+            if not some_filled and any(x_[0] == "index" and x_[1] in (("list", ()), ("app", ("global", "builtins.list"), (), ())) for t0_ in nts for x_ in _leaves(t0_)):
+                # the normalised calls are collected in a list (empty at first, appended to per candidate) and the first is
+                # taken: what the list holds is what is appended to it
+                fgl_ = ctx_u.analysis(g_)
+                for ap_ in [c2 for c2 in calls_in(g_) if isinstance(c2.func, ast.Attribute) and c2.func.attr == "append" and isinstance(c2.func.value, ast.Name) and len(c2.args) == 1 and fgl_.cfg.has_node(c2)]:
+                    if strip_sites(fgl_.term_of(ap_.func.value)) in (("list", ()), ("app", ("global", "builtins.list"), (), ())) and _is_filled(strip_sites(fgl_.term_of(ap_.args[0]))):
+                        some_filled = True
             if raw_ok and not _is_filled(nt) and not some_filled:
                 run.fail("C07.R2", g_, stmt_of(c), "when no candidate can be typed the record of last resort carries the call as written, although a definition of the method was found and normalised against: e.coll() for def coll(self, n: int = 3) -> <an annotation that cannot be resolved> stays e.coll() instead of e.coll(3), and keywords stay keywords", "node=<the normalised call of the first candidate> (the raw call only if there is no candidate)", show(nt)[:200], key="normalised call dropped when the return type is unknown")
             else:
@@ -840,6 +847,18 @@ def check_backlink_values(run: Run, ctx, m, mod: str, rule: str) -> None:
             tgt = tgt[1] if tgt[0] == "upd" else tgt
             val = strip_sites(fa.term_of(n.value))
             alts = list(unphi_terms(val))
+            # the link is written whatever the new node carries already: a node a callback made as a deep copy of the one
+            # it was handed has the *copy* of that node's link - to a node that is not in the user's lambda
+            fxn = Facts(fa, n)
+            for a_, _pol in fxn.atoms:
+                for x_ in ast.walk(a_):
+                    subj = None
+                    if isinstance(x_, ast.Call) and isinstance(x_.func, ast.Name) and x_.func.id in ("hasattr", "getattr") and len(x_.args) >= 2 and isinstance(x_.args[1], ast.Constant) and x_.args[1].value == "_old_ast":
+                        subj = x_.args[0]
+                    elif isinstance(x_, ast.Attribute) and x_.attr == "_old_ast":
+                        subj = x_.value
+                    if subj is not None and strip_sites(fxn._term(subj)) == tgt:
+                        run.fail(rule, fi, n, f"the back-link of {show(tgt)[:40]} is written only when that node does not carry one already ({ast.unparse(a_)[:80]}): a replacement a callback made by copy.deepcopy of the call it was handed carries the copied link, which points at a copy - the patch-back then edits an orphan and the user's nested lambda keeps the call as written", "new_node._old_ast = getattr(replaced_node, '_old_ast', replaced_node) unconditionally", key="back-link kept from a copied node")
             for alt in alts:
                 # getattr(R, "_old_ast", R) reads as the alternatives R._old_ast | R
                 if alt[0] == "attr" and alt[2] == "_old_ast":
